@@ -21,7 +21,7 @@ def apply() -> None:
     import os
     off = set(os.environ.get("VF_DISABLE", "").split(","))     # only used to validate the self-test itself
     for name, fn in (("e1", _e1_groupdict), ("e2", _e2_dollar), ("e5", _e5_format), ("e8", _e8_no_shortcircuit),
-                     ("e9", _e9_concrete_dict_keys), ("e10", _e10_concat_eq)):
+                     ("e9", _e9_concrete_dict_keys), ("e10", _e10_concat_eq), ("e11", _e11_py_normpath)):
         if name not in off:
             fn()
     install_stats()
@@ -214,6 +214,48 @@ def _e10_concat_eq() -> None:
 # ---------------------------------------------------------------------------------------------
 # statistics for the evidence files: paths explored, solver queries, solver seconds
 STATS = {"paths": 0, "queries": 0, "solver_s": 0.0}
+
+
+# ---------------------------------------------------------------------------------------------
+# E11: os.path.normpath is a C function since 3.11 (posix._path_normpath): a symbolic string is realised at the
+# call, and everything after it is concrete sampling.  In symbolic mode it is replaced by CPython's own pure-Python
+# reference implementation (the ImportError fallback in Lib/posixpath.py, str case), so the string stays symbolic.
+# Differentially validated against the C function in the self-test.
+def py_normpath(path):
+    import os
+    path = os.fspath(path)
+    if isinstance(path, bytes):
+        return _C_NORMPATH(path)
+    if path == "":
+        return "."
+    if path[:2] == "//" and path[2:3] != "/":
+        initial_slashes, path = "//", path[2:]
+    elif path[:1] == "/":
+        initial_slashes, path = "/", path.lstrip("/")
+    else:
+        initial_slashes = ""
+    comps = path.split("/")
+    new_comps = []
+    for comp in comps:
+        if comp == "" or comp == ".":
+            continue
+        if comp != ".." or (not initial_slashes and not new_comps) or (new_comps and new_comps[-1] == ".."):
+            new_comps.append(comp)
+        elif new_comps:
+            new_comps.pop()
+    path = initial_slashes + "/".join(new_comps)
+    return path or "."
+
+
+_C_NORMPATH = None
+
+
+def _e11_py_normpath() -> None:
+    global _C_NORMPATH
+    import posixpath
+    if _C_NORMPATH is None:
+        _C_NORMPATH = posixpath.normpath
+    posixpath.normpath = py_normpath
 
 
 def install_stats() -> None:
